@@ -34,6 +34,7 @@ SPEC_MODE = False
 
 
 def fresh_name(base: str) -> str:
+    base = "".join(ch if (ch.isalnum() or ch in "_.@") else "_" for ch in base)
     return f"{base}!{next(_counter)}"
 
 
@@ -418,6 +419,8 @@ def leaves_of(v):
         return [v]
     if isinstance(v, (tuple, list)):
         return [x for e in v for x in leaves_of(e)]
+    if isinstance(v, dict):
+        return [x for k in sorted(v, key=repr) for x in leaves_of(v[k])]
     if hasattr(v, "leaves"):
         out = []
         for e in v.leaves():
@@ -437,6 +440,8 @@ def sig_of(v):
         return ("tuple",) + tuple(sig_of(e) for e in v)
     if isinstance(v, list):
         return ("list",) + tuple(sig_of(e) for e in v)
+    if isinstance(v, dict):
+        return ("dict",) + tuple((repr(k), sig_of(v[k])) for k in sorted(v, key=repr))
     if hasattr(v, "sig"):
         return v.sig()
     raise Outside(f"signature of {type(v).__name__}")
@@ -450,6 +455,8 @@ def rebuild_from(v, it):
         return tuple(rebuild_from(e, it) for e in v)
     if isinstance(v, list):
         return [rebuild_from(e, it) for e in v]
+    if isinstance(v, dict):
+        return {k: rebuild_from(v[k], it) for k in sorted(v, key=repr)}
     if hasattr(v, "leaves"):
         inner = v.leaves()
         new = [rebuild_from(e, it) for e in inner]
